@@ -73,6 +73,32 @@ def mc(ctx, module, cfg, timeout=1200, workers=8):
     return r
 
 
+def validate_chunked(ctx, module, path, chunk=150000, timeout=3000):
+    """ctx.validate_trace on slices of a big trace (events are self-contained); returns (fails, drifts) with
+    global 1-based indices."""
+    n = sum(1 for _ in open(path))
+    if n <= chunk:
+        f, d, _ = ctx.validate_trace(module, path, timeout=timeout)
+        return f, d
+    fails, drifts = [], []
+    with open(path) as src:
+        k = 0
+        while True:
+            lines = [l for _, l in zip(range(chunk), src)]
+            if not lines:
+                break
+            part = "%s.part%d" % (path, k)
+            with open(part, "w") as out:
+                out.writelines(lines)
+            f, d, _ = ctx.validate_trace(module, part, timeout=timeout, heap="8g")
+            fails += [dict(x, i=x["i"] + k * chunk) for x in f]
+            drifts += [dict(x, i=x["i"] + k * chunk) for x in d]
+            import os
+            os.remove(part)
+            k += 1
+    return fails, drifts
+
+
 def judge(ctx, path, driver):
     fails, drifts, r = ctx.validate_trace("Trace_OracleValidate", path)
     ev = vlib.read_ndjson(path)
